@@ -757,6 +757,12 @@ def run_history(cfg, script=(), max_subset=None, max_bg=None):
                 kw = {k2: [ids[j - 1] for j in sel[k1]] for k1, k2 in (("t", "target_nodes"), ("x", "exclude_nodes"), ("r", "root_nodes")) if sel.get(k1) is not None}
                 try:
                     target = d.executor(**kw)
+                except _Hang:
+                    # building the executor never came back (the watchdog broke it off): the operation hangs (C09)
+                    ctl.log("op", k="exec")
+                    ctl.log("raise", k="hang")
+                    ctl.log("op_end")
+                    break
                 except Exception:  # noqa: BLE001  (selections and their caller errors are engine E3's subject)
                     ctl.log("op_skipped", k="exec")
                     continue
@@ -765,7 +771,9 @@ def run_history(cfg, script=(), max_subset=None, max_bg=None):
             ctl.in_call = True
             try:
                 if opname == "setup":
-                    asyncio.run(d.setup()) if is_async else d.setup()
+                    # a setup run, possibly restricted to what depends on some root setup nodes
+                    skw = {} if isinstance(op, str) or not op[1].get("r") else {"root_nodes": [ids[j - 1] for j in op[1]["r"]]}
+                    asyncio.run(d.setup(**skw)) if is_async else d.setup(**skw)
                 elif opname == "exec":
                     asyncio.run(target(*callargs)) if is_async else target(*callargs)
                 else:
